@@ -1,6 +1,7 @@
 import CoapVerif.Go.Basic
 import CoapVerif.Model.RouterPat
 import CoapVerif.Generated.RouterLockShape
+import CoapVerif.Generated.OptionDefs
 /-!
 # C17 — model of mux/regexp.go and mux/router.go (core Lean only)
 
@@ -23,7 +24,8 @@ Follows the Go code as it is:
   middlewares applied from the last to the first).
 -/
 namespace CoapVerif.Model.Router
-open CoapVerif.Generated.RouterLockShape (defaultPatternText emptyPathReplacement)
+open CoapVerif.Generated.RouterLockShape (defaultPatternText emptyPathReplacement uriPathOptionID)
+open CoapVerif.Generated.OptionDefs (coapOptionDefs)
 
 /-! ## Failures -/
 
@@ -386,5 +388,33 @@ def serveWith (mws : List String) (dflt : Option Handler) (order : List (Str × 
 
 def Router.serveCOAP (r : Router) (order : List (Str × Route)) (path : Option Str) : Outcome :=
   serveWith r.middlewares r.defaultHandler order path
+
+/-! ## From the wire to the router
+
+A request arrives as bytes; the udp/tcp decoders turn its options into `message.Options`, skipping every option whose
+value length lies outside the range of its definition in `CoapOptionDefs` (regenerated: `Generated/OptionDefs.lean`);
+the connection hands every message it does not consume itself — whatever its code — to the handler installed by
+`options.WithMux`, which is `mux.ToHandler(router)` itself (regenerated fact `muxApplyDirect`); `Options.Path()` joins
+the surviving Uri-Path values. -/
+
+/-- does the decoder keep an option with number `id` and a value of `len` bytes? -/
+def optionKept (id len : Nat) : Bool :=
+  match coapOptionDefs.find? (fun d => d.1 = id) with
+  | some (_, mn, mx, _) => decide (mn ≤ len) && decide (len ≤ mx)
+  | none => true
+
+/-- the Uri-Path values that survive decoding, in order -/
+def decodedSegs (segs : List Str) : List Str := segs.filter (fun s => optionKept uriPathOptionID (byteLen s))
+
+/-- `Options.Path()`: `none` = ErrOptionNotFound (no Uri-Path option), else every value preceded by `/` -/
+def wirePath (segs : List Str) : Option Str :=
+  match segs with
+  | [] => none
+  | _ => some (segs.flatMap (fun s => '/' :: s))
+
+/-- a message with code `code` and the Uri-Path option values `segs` received by a connection whose handler was installed
+    through `options.WithMux(router)`; the code plays no part -/
+def Router.wireServe (r : Router) (order : List (Str × Route)) (_code : Nat) (segs : List Str) : Outcome :=
+  r.serveCOAP order (wirePath (decodedSegs segs))
 
 end CoapVerif.Model.Router
